@@ -109,7 +109,12 @@ def sensitivity(only, names=None):
             scratch = tempfile.mkdtemp(prefix="ksim_mut_")
             t0 = time.time()
             try:
-                make_mutant(scratch, mut)
+                try:
+                    make_mutant(scratch, mut)
+                except RuntimeError as e:
+                    print("sensitivity %s %-45s BROKEN-MUTANT %s" % (check, mut["name"], e))
+                    bad += 1
+                    continue
                 env = dict(os.environ)
                 env["KSIM_REPO_PATH"] = scratch
                 env["KSIM_EVIDENCE_DIR"] = os.path.join(scratch, "evidence")
